@@ -17,21 +17,22 @@ func propC11(c *Ctx) {
 	u2 := c.Rule("U2", "K1/K5 site table", "HandlePacket: checks, fresh packet, exact sender, clone after one trim", 10)
 	if fn := c.Fn(u2, "(*udp.endpoint).HandlePacket"); fn != nil {
 		m := map[string]string{
-			"VV":    "new(buffer.VectorisedView)",
+			"VV":    "$3",                            // the inbound view as passed in
+			"VV2":   "new(buffer.VectorisedView)@2", // the same variable after exactly one mutation (the TrimFront)
 			"HDR":   "buffer.VectorisedView.First({VV})",
 			"LENOK": "!(buffer.VectorisedView.Size({VV}) < header.UDP.Length({HDR}))",
 			"PKT":   "new(udp.udpPacket)",
 		}
 		admit := sub(m, "{LENOK}", "$0.rcvReady", "!$0.rcvClosed", "($0.rcvBufSize < $0.rcvBufSizeMax)")
 		c.CheckSites(u2, fn, []SiteSpec{
-			{Kind: "call", Target: "(*buffer.VectorisedView).TrimFront", Args: sub(m, "&{VV}", "8"), Guards: sub(m, "{LENOK}"), N: 1, Why: "exactly one trim, of the 8-byte UDP header, after the length check"},
+			{Kind: "call", Target: "(*buffer.VectorisedView).TrimFront", Args: sub(m, "&new(buffer.VectorisedView)", "8"), Guards: sub(m, "{LENOK}"), N: 1, Why: "exactly one trim, of the 8-byte UDP header, after the length check"},
 			{Kind: "call", Target: "(*udp.udpPacketList).PushBack", Args: sub(m, "&$0.rcvList", "&{PKT}"), Guards: admit, N: 1, Why: "enqueue at the back, a packet object allocated for this arrival, only when admitted"},
-			{Kind: "call", Target: "buffer.VectorisedView.Clone", Args: sub(m, "{VV}", "{PKT}.views[:]"), Guards: admit, N: 1, Why: "the payload is cloned into the packet's own view array"},
-			{Kind: "store", Target: "udp.udpPacket.data", Args: sub(m, "{PKT}", "buffer.VectorisedView.Clone({VV}, {PKT}.views[:])"), N: 1, Why: "data = the clone"},
+			{Kind: "call", Target: "buffer.VectorisedView.Clone", Args: sub(m, "{VV2}", "{PKT}.views[:]"), Guards: admit, N: 1, Why: "the payload is cloned into the packet's own view array"},
+			{Kind: "store", Target: "udp.udpPacket.data", Args: sub(m, "{PKT}", "buffer.VectorisedView.Clone({VV2}, {PKT}.views[:])"), N: 1, Why: "data = the clone"},
 			{Kind: "store", Target: "tcpip.FullAddress.NIC", Args: sub(m, "{PKT}.senderAddress", "(*stack.Route).NICID($1)"), N: 1, Why: "sender NIC = NIC of the inbound route"},
 			{Kind: "store", Target: "tcpip.FullAddress.Addr", Args: sub(m, "{PKT}.senderAddress", "$2.RemoteAddress"), N: 1, Why: "sender address = remote address of the packet's id"},
 			{Kind: "store", Target: "tcpip.FullAddress.Port", Args: sub(m, "{PKT}.senderAddress", "header.UDP.SourcePort({HDR})"), N: 1, Why: "sender port = source port of the UDP header"},
-			{Kind: "store", Target: "udp.endpoint.rcvBufSize", Args: sub(m, "$0", "($0.rcvBufSize + buffer.VectorisedView.Size({VV}))"), Guards: admit, N: 1, Why: "buffer accounting grows by the payload size"},
+			{Kind: "store", Target: "udp.endpoint.rcvBufSize", Args: sub(m, "$0", "($0.rcvBufSize + buffer.VectorisedView.Size({VV2}))"), Guards: admit, N: 1, Why: "buffer accounting grows by the payload size"},
 		})
 		// order: length check -> trim -> clone ; no CapLength anywhere
 		trims := c.Calls(fn, Is("(*buffer.VectorisedView).TrimFront"), false)
@@ -136,7 +137,7 @@ func propC11(c *Ctx) {
 		payload := "iface:tcpip.Payload.Get($1, iface:tcpip.Payload.Size($1))"
 		m := map[string]string{"ROUTE": "phi{&$0.route | &new(stack.Route)}"}
 		c.CheckSites(u5, fn, []SiteSpec{
-			{Kind: "call", Target: "udp.sendUDP", Args: sub(m, "{ROUTE}", "buffer.View.ToVectorisedView("+payload+"#0)", "$0.id.LocalPort", "phi{$0.dstPort | new(tcpip.FullAddress).Port}", "*"),
+			{Kind: "call", Target: "udp.sendUDP", Args: sub(m, "{ROUTE}", "buffer.View.ToVectorisedView("+payload+"#0)", "$0.id.LocalPort", "phi{$0.dstPort | new(tcpip.FullAddress).Port@2}", "*"),
 				Guards: []string{"(" + payload + "#1 == nil)", "!(65527 < iface:tcpip.Payload.Size($1))"}, N: 1,
 				Why: "exactly one send: whole payload, endpoint's local port, connect/To destination port; only for sizes that fit the 16-bit length"},
 			{Kind: "call", Target: "iface:tcpip.Payload.Get", Args: []string{"$1", "iface:tcpip.Payload.Size($1)"}, N: 1, Why: "the whole payload is fetched"},
@@ -175,12 +176,12 @@ func propC11(c *Ctx) {
 		c.Check(n == 1, u5, FuncName(fn)+"/returns-len", c.P.Pos(fn.Pos()), "returned count is len(payload)", "Write no longer returns len(payload) exactly once")
 	}
 	if fn := c.Fn(u5, "udp.sendUDP"); fn != nil {
-		length := "(buffer.Prependable.UsedLength(new(buffer.Prependable)) + buffer.VectorisedView.Size($1))"
+		length := "(buffer.Prependable.UsedLength(new(buffer.Prependable)@2) + buffer.VectorisedView.Size($1))"
 		c.CheckSites(u5, fn, []SiteSpec{
 			{Kind: "store", Target: "header.UDPFields.SrcPort", Args: []string{"new(header.UDPFields)", "$2"}, N: 1, Why: "source port = local port argument"},
 			{Kind: "store", Target: "header.UDPFields.DstPort", Args: []string{"new(header.UDPFields)", "$3"}, N: 1, Why: "destination port = remote port argument"},
 			{Kind: "store", Target: "header.UDPFields.Length", Args: []string{"new(header.UDPFields)", length}, N: 1, Why: "length = header bytes used + payload size"},
-			{Kind: "call", Target: "(*stack.Route).WritePacket", Args: []string{"$0", "new(buffer.Prependable)", "$1", "17", "$4"}, N: 1, Why: "one network write with the prepared header and the unmodified payload"},
+			{Kind: "call", Target: "(*stack.Route).WritePacket", Args: []string{"$0", "new(buffer.Prependable)@2", "$1", "17", "$4"}, N: 1, Why: "one network write with the prepared header and the unmodified payload"},
 		})
 		// UsedLength is evaluated after this function's own Prepend
 		pre := c.Calls(fn, Is("(*buffer.Prependable).Prepend"), false)
